@@ -193,7 +193,9 @@ Proof.
   apply run_pres.
   - intros s e H. destruct (fail_fields s e) as [T [Pd _]]. eapply deliv_inv_ext; eauto.
   - intros s e He. apply deliv_inv_emit. apply obs_quiet; exact He.
-  - intros s a kind r hold sw run. apply deliv_inv_emit. exact I.
+  - apply callback_from_emit.
+    + intros s e H. destruct (fail_fields s e) as [T [Pd _]]. eapply deliv_inv_ext; eauto.
+    + intros s a kind r hold sw run. apply deliv_inv_emit. exact I.
   - intros s e He [H1 H2]. destruct (boundary_no_truth e He) as [Et Ed]. unfold deliv_inv, no_truth, flush, write. cbn.
     rewrite rev_app_distr, !rev_involutive, !truths_app, !delivered_app, !truths_one, !delivered_one. rewrite H1.
     unfold no_truth in H2. rewrite H2, Et, Ed. simpl. rewrite !app_nil_r. auto.
@@ -280,51 +282,98 @@ Proof.
   apply hold_inv_log_event_nonfill; auto. destruct (is_fill r); auto; discriminate.
 Qed.
 
+(* hold_inv is preserved by every atomic update (one lemma per hypothesis of SimLift.run_pres) *)
+Section HoldInvSteps.
+Variable a0 : list agent.
+Let P := hold_inv a0.
+Lemma HI_fail : forall s e, P s -> P (fail s e).
+Proof. intros s e H. destruct (fail_fields s e) as [T [Pd [A _]]]. eapply hold_inv_ext; eauto. Qed.
+Lemma HI_emit : forall s e, obs_event e -> P s -> P (emit s e).
+Proof. intros s e He H. apply hold_inv_emit_nonfill; auto. destruct (obs_no_truth e (obs_quiet e He)) as [-> _]. reflexivity. Qed.
+Lemma HI_callback : forall s aid kind r mkid, P s -> P (callback s aid kind r mkid).
+Proof.
+  apply callback_from_emit; [apply HI_fail|].
+  intros s a kind r hold sw run H. apply hold_inv_emit_nonfill; auto.
+Qed.
+Lemma HI_boundary : forall s e, boundary_event e -> P s -> P (flush (write s e)).
+Proof.
+  intros s e He [H H2]. destruct (boundary_no_truth e He) as [Et Ed]. unfold P, hold_inv, no_truth, flush, write in *. cbn.
+  split; auto. rewrite rev_app_distr, !rev_involutive, !fills_app.
+  assert (F1 : fills (s_pending s) = []) by (unfold fills; rewrite H2; reflexivity).
+  assert (F2 : fills [e] = []) by (unfold fills; rewrite truths_one, Et; reflexivity).
+  rewrite F1, F2, !app_nil_r. exact H.
+Qed.
+Lemma HI_accept_order : forall s mkid x ag mk buy p v ttlv m' rc tag,
+  find_mkt mkid (s_markets s) = Some x -> add_order (mk_m x) ag mk buy p v ttlv = Ok (m', rc) ->
+  P s -> P (do_accept_order s mkid x m' rc tag).
+Proof.
+  intros s mkid x ag mk buy p v ttlv m' rc tag _ Ha H. destruct (add_order_record _ _ _ _ _ _ _ _ _ Ha) as [o ->].
+  unfold do_accept_order. apply hold_inv_log_event_nonfill; [reflexivity|].
+  eapply hold_inv_ext; [| | |exact H]; reflexivity.
+Qed.
+Lemma HI_accept_cancel : forall s mkid x i m' rc,
+  find_mkt mkid (s_markets s) = Some x -> cancel_order (mk_m x) i = Ok (m', rc) -> P s -> P (do_accept_cancel s mkid m' rc).
+Proof.
+  intros s mkid x i m' rc _ Hc H. destruct (cancel_order_record _ _ _ _ Hc) as [o [ct ->]].
+  unfold do_accept_cancel. apply hold_inv_log_event_nonfill; [reflexivity|].
+  eapply hold_inv_ext; [| | |exact H]; reflexivity.
+Qed.
+Lemma HI_round : forall s mkid x, find_mkt mkid (s_markets s) = Some x -> cur_switch s = true ->
+  P s -> P (emit s (EvRound mkid (m_running (mk_m x)) (s_cur s))).
+Proof. intros s mkid x _ _ H. apply hold_inv_emit_nonfill; auto. Qed.
+Lemma HI_fills : forall s mkid x m' logs,
+  find_mkt mkid (s_markets s) = Some x -> execution (mk_m x) = Ok (m', logs) -> cur_switch s = true ->
+  (exists tr, s_trace s = EvRound mkid (m_running (mk_m x)) (s_cur s) :: tr) -> P s -> P (do_fills s mkid m' logs).
+Proof.
+  intros s mkid x m' logs _ He _ _ [H H2]. pose proof (execution_records _ _ _ He) as Hl.
+  unfold do_fills. destruct (log_events_trace logs (set_market s mkid m')) as [T [Pd [A _]]]. cbv zeta in *.
+  destruct (set_market_fields s mkid m') as [T0 [P0 [A0 _]]].
+  unfold P, hold_inv, no_truth. cbn [s_agents s_trace s_pending set]. rewrite T, Pd, A, T0, P0, A0.
+  rewrite rev_app_distr, rev_involutive, fills_app.
+  assert (F : fills (map (fun r => EvTruth r []) logs) = logs) by (unfold fills; rewrite truths_map_truth; apply filter_all; auto).
+  rewrite F, fold_left_app, <- H. split; auto.
+  rewrite truths_app, truths_map_log. unfold no_truth in H2. rewrite H2. reflexivity.
+Qed.
+Lemma HI_tick_all : forall s, P s -> P (tick_all s).
+Proof.
+  apply tick_all_pres.
+  - apply HI_fail.
+  - intros s x f m' recs _ Ht H. unfold do_tick. apply hold_inv_log_events_nonfill.
+    + eapply tick_records_kind; eauto.
+    + eapply hold_inv_ext; [| | |exact H]; reflexivity.
+Qed.
+Lemma HI_pop_perm : forall s, P s -> P (fst (pop_perm s)).
+Proof. intros s H. destruct (pop_perm_fields s) as [T [Pd A]]. eapply hold_inv_ext; eauto. Qed.
+Lemma HI_pop_draw : forall s, P s -> P (fst (pop_draw s)).
+Proof. intros s H. destruct (pop_draw_fields s) as [T [Pd A]]. eapply hold_inv_ext; eauto. Qed.
+Lemma HI_consult : forall s aid, P s -> P (fst (consult s aid)).
+Proof.
+  intros s aid H. destruct (consult_fields s aid) as [[T|[n T]] [Pd A]].
+  - eapply hold_inv_ext; eauto.
+  - pose proof (hold_inv_emit_nonfill a0 s (EvConsult aid n) eq_refl H) as G. eapply hold_inv_ext; [| | |exact G]; auto.
+Qed.
+Lemma HI_spent : forall s eid, P s -> P (s <| s_events := upd_event eid (fun e => e <| es_spent := true |>) (s_events s) |>).
+Proof. intros s eid H. eapply hold_inv_ext; [| | |exact H]; reflexivity. Qed.
+Lemma HI_halt_after : forall s e mkid, In e (s_events s) -> round_ctx mkid s -> P s -> P (halt_after_execution s e mkid).
+Proof. intros s e mkid _ _ H. destruct (halt_after_fields s e mkid) as [T [Pd A]]. eapply hold_inv_ext; eauto. Qed.
+Lemma HI_halt_before : forall s e x, In e (s_events s) -> find_mkt (m_id (mk_m x)) (s_markets s) = Some x -> P s -> P (halt_before_step s e x).
+Proof. intros s e x _ _ H. destruct (halt_before_fields s e x) as [T [Pd A]]. eapply hold_inv_ext; eauto. Qed.
+Lemma HI_shock : forall s e x, find_mkt (m_id (mk_m x)) (s_markets s) = Some x -> P s -> P (shock_before_step s e x).
+Proof. intros s e x _ H. destruct (shock_fields s e x) as [T [Pd A]]. eapply hold_inv_ext; eauto. Qed.
+Lemma HI_set_cur : forall s sid, P s -> P (s <| s_cur := sid |>).
+Proof. intros s sid H. eapply hold_inv_ext; [| | |exact H]; reflexivity. Qed.
+Lemma HI_begin_iteration : forall s, P s -> P (begin_iteration s).
+Proof. intros s H. eapply hold_inv_ext; [| | |exact H]; reflexivity. Qed.
+End HoldInvSteps.
+
 Theorem hold_inv_run c tape batches funds :
   hold_inv (s_agents (init_sim c tape batches funds)) (run c tape batches funds).
 Proof.
   set (a0 := s_agents (init_sim c tape batches funds)).
-  apply run_pres.
-  - intros s e H. destruct (fail_fields s e) as [T [Pd [A _]]]. eapply hold_inv_ext; eauto.
-  - intros s e He H. apply hold_inv_emit_nonfill; auto. destruct (obs_no_truth e (obs_quiet e He)) as [-> _]. reflexivity.
-  - intros s a kind r hold sw run H. apply hold_inv_emit_nonfill; auto.
-  - intros s e He [H H2]. destruct (boundary_no_truth e He) as [Et Ed]. unfold hold_inv, no_truth, flush, write in *. cbn.
-    split; auto. rewrite rev_app_distr, !rev_involutive, !fills_app.
-    assert (F1 : fills (s_pending s) = []) by (unfold fills; rewrite H2; reflexivity).
-    assert (F2 : fills [e] = []) by (unfold fills; rewrite truths_one, Et; reflexivity).
-    rewrite F1, F2, !app_nil_r. exact H.
-  - intros s mkid x ag mk buy p v ttlv m' rc tag _ Ha H. destruct (add_order_record _ _ _ _ _ _ _ _ _ Ha) as [o ->].
-    unfold do_accept_order. apply hold_inv_log_event_nonfill; [reflexivity|].
-    eapply hold_inv_ext; [| | |exact H]; reflexivity.
-  - intros s mkid x i m' rc _ Hc H. destruct (cancel_order_record _ _ _ _ Hc) as [o [ct ->]].
-    unfold do_accept_cancel. apply hold_inv_log_event_nonfill; [reflexivity|].
-    eapply hold_inv_ext; [| | |exact H]; reflexivity.
-  - intros s mkid x _ _ H. apply hold_inv_emit_nonfill; auto.
-  - intros s mkid x m' logs _ He _ _ [H H2]. pose proof (execution_records _ _ _ He) as Hl.
-    unfold do_fills. destruct (log_events_trace logs (set_market s mkid m')) as [T [Pd [A _]]]. cbv zeta in *.
-    destruct (set_market_fields s mkid m') as [T0 [P0 [A0 _]]].
-    unfold hold_inv, no_truth. cbn [s_agents s_trace s_pending set]. rewrite T, Pd, A, T0, P0, A0.
-    rewrite rev_app_distr, rev_involutive, fills_app.
-    assert (F : fills (map (fun r => EvTruth r []) logs) = logs) by (unfold fills; rewrite truths_map_truth; apply filter_all; auto).
-    rewrite F, fold_left_app, <- H. split; auto.
-    rewrite truths_app, truths_map_log. unfold no_truth in H2. rewrite H2. reflexivity.
-  - apply tick_all_pres.
-    + intros s e H. destruct (fail_fields s e) as [T [Pd [A _]]]. eapply hold_inv_ext; eauto.
-    + intros s x f m' recs _ Ht H. unfold do_tick. apply hold_inv_log_events_nonfill.
-      * eapply tick_records_kind; eauto.
-      * eapply hold_inv_ext; [| | |exact H]; reflexivity.
-  - intros s H. destruct (pop_perm_fields s) as [T [Pd A]]. eapply hold_inv_ext; eauto.
-  - intros s H. destruct (pop_draw_fields s) as [T [Pd A]]. eapply hold_inv_ext; eauto.
-  - intros s aid H. destruct (consult_fields s aid) as [[T|[n T]] [Pd A]].
-    + eapply hold_inv_ext; eauto.
-    + pose proof (hold_inv_emit_nonfill a0 s (EvConsult aid n) eq_refl H) as G. eapply hold_inv_ext; [| | |exact G]; auto.
-  - intros s eid H. eapply hold_inv_ext; [| | |exact H]; reflexivity.
-  - intros s e mkid _ _ H. destruct (halt_after_fields s e mkid) as [T [Pd A]]. eapply hold_inv_ext; eauto.
-  - intros s e x _ _ H. destruct (halt_before_fields s e x) as [T [Pd A]]. eapply hold_inv_ext; eauto.
-  - intros s e x _ H. destruct (shock_fields s e x) as [T [Pd A]]. eapply hold_inv_ext; eauto.
-  - intros s sid H. eapply hold_inv_ext; [| | |exact H]; reflexivity.
-  - intros s H. eapply hold_inv_ext; [| | |exact H]; reflexivity.
-  - unfold hold_inv, no_truth, init_sim. cbn. auto.
+  apply (run_pres (hold_inv a0) (HI_fail a0) (HI_emit a0) (HI_callback a0) (HI_boundary a0) (HI_accept_order a0) (HI_accept_cancel a0)
+           (HI_round a0) (HI_fills a0) (HI_tick_all a0) (HI_pop_perm a0) (HI_pop_draw a0) (HI_consult a0) (HI_spent a0)
+           (HI_halt_after a0) (HI_halt_before a0) (HI_shock a0) (HI_set_cur a0) (HI_begin_iteration a0)).
+  unfold hold_inv, no_truth, init_sim. cbn. auto.
 Qed.
 
 (* at the end of every run, each agent's holdings are the endowment folded with the run's fills in order *)
@@ -470,7 +519,9 @@ Proof.
   intros Hnd. apply run_pres.
   - (* fail *) intros s e H. destruct (fail_fields s e) as [T [Pd [_ [_ [Se [Ev _]]]]]]. eapply switch_inv_ext; eauto.
   - (* emit *) intros s e He H. apply switch_inv_emit; auto; destruct e; simpl in He; try contradiction; intros; discriminate.
-  - (* callback *) intros s a kind r hold sw run H. apply switch_inv_emit; auto; intros; discriminate.
+  - (* callback *) apply callback_from_emit.
+    + intros s e H. destruct (fail_fields s e) as [T [Pd [_ [_ [Se [Ev _]]]]]]. eapply switch_inv_ext; eauto.
+    + intros s a kind r hold sw run H. apply switch_inv_emit; auto; intros; discriminate.
   - (* boundary *) intros s e He [N [A [B [C [D T]]]]]. unfold switch_inv, flush, write. cbn. repeat split; auto.
     + intros mk run sid Hin. apply in_app_iff in Hin. destruct Hin as [Hin|Hin]; [|eauto].
       exfalso. apply in_rev in Hin. apply in_app_iff in Hin. destruct Hin as [Hin|[Hin|[]]].
